@@ -7,8 +7,8 @@ CHECK = Check(
     rule=("generated inspectors of the model's emit units x value variants x every resolving path and the unknown-field / "
           "absent-key / index -1,len,len+1,huge / unparsable-segment / nil-pointer / past-scalar variants x right operands chosen "
           "by what the path denotes (equal, adjacent, far, boundary of the kind, outside its range, hex/octal/binary/underscore/"
-          "signed/exponent spellings, unparsable texts, \"nil\") x the six operators and OpUnk/OpInc (quick: operators rotate over "
-          "the operands; thorough: full product on leaves); every Compare runs twice, *result preset false and true; "
+          "signed/exponent spellings, unparsable texts, \"nil\") x the six operators and OpUnk/OpInc (operators rotate over the operands; "
+          "thorough: all supported units over every scalar kind); every Compare runs twice, *result preset false and true; "
           "distinct = distinct input text, all non-trivial."),
     assumptions=["an operand parses as the element's type when strconv's reader of that family accepts it (ParseInt/ParseUint base 0, "
                  "ParseFloat on the decimal/inf/nan grammar, ParseBool); integers outside the kind's range, float32 overflow, and "
